@@ -145,10 +145,25 @@ def parse_derived_coords(document_list: list) -> Coords:
         raise
 
 
+def collinear_extremes(points: List[Tuple[int, int]]) -> Union[List[Tuple[int, int]], None]:
+    """Return the extreme points of a set of points that all lie on one straight line
+    (a single point if they all coincide), or None if they do not."""
+    points = [(point[0], point[1]) for point in points]
+    first, last = min(points), max(points)
+    for point in points:
+        if (last[0] - first[0]) * (point[1] - first[1]) != (last[1] - first[1]) * (point[0] - first[0]):
+            return None
+    return [first] if first == last else [first, last]
+
+
 def coords_list_to_hull_coords(coords_list):
     points = [point for coords in coords_list for point in coords.points]
     if len(points) <= 2:
         return Coords(points)
+    extremes = collinear_extremes(points)
+    if extremes is not None:
+        # Qhull needs points that span a plane; the hull of points on one line is the segment between the extremes
+        return Coords(extremes)
     try:
         edges = points_to_hull_edges(points)
         hull_points = edges_to_hull_points(edges)
